@@ -339,6 +339,65 @@ def judge_class(case):
     return j
 
 
+def judge_wiring(case):
+    """class-level wiring on synthetic result tables (no identification run): the tables, labels, rtol and
+    covariances handed to the extraction function and the fields stored afterwards"""
+    from pyoma2.algorithms.data.result import SSIResult, pLSCFResult
+
+    kind = case["kind"]
+    t = tables.build(case["table"])
+    Lab = None
+    if kind == "plscf":
+        t["Fn_cov"] = t["Xi_cov"] = t["Phi_cov"] = None
+        alg = pLSCF(name="a", ordmax=t["Fn"].shape[1])
+        alg.result = pLSCFResult(Fn_poles=t["Fn"].copy(), Xi_poles=t["Xi"].copy(), Phi_poles=t["Phi"].copy(), Lab=np.zeros(t["Fn"].shape, dtype=int))
+    else:
+        alg = SSIcov(name="a", br=4, ordmax=t["Fn"].shape[1] - 1)
+        rng = np.random.Generator(np.random.PCG64(case["pick"] + 2))
+        mid = t["mode_id"]
+        u = rng.random(t["Fn"].shape)
+        Lab = np.where(mid >= 0, u < case["pstab"], (mid == -1) & (u < case["pspur"])).astype(int)
+        Lab[:, : max(1, min(case.get("onset", 0), t["Fn"].shape[1] - 1))] = 0
+        alg.result = SSIResult(Fn_poles=t["Fn"].copy(), Xi_poles=t["Xi"].copy(), Phi_poles=t["Phi"].copy(), Lab=Lab.copy(),
+                               Fn_poles_cov=None if t["Fn_cov"] is None else t["Fn_cov"].copy(),
+                               Xi_poles_cov=None if t["Xi_cov"] is None else t["Xi_cov"].copy(),
+                               Phi_poles_cov=None if t["Phi_cov"] is None else t["Phi_cov"].copy())
+    alg._set_data(np.zeros((4, case["table"]["nch"])), 10.0)
+
+    def call(kind_, req, t_, order, Lab_, rtol):
+        r = sut(alg.mpe, sel_freq=list(req), order=order, rtol=rtol)
+        if raised(r):
+            return r
+        res = alg.result
+        return (res.Fn, res.Xi, res.Phi, res.order_out, getattr(res, "Fn_cov", None), getattr(res, "Xi_cov", None), getattr(res, "Phi_cov", None))
+
+    global _call
+    saved = _call
+    _call = call
+    try:
+        if case["mode"] == "find_min":
+            # judge_find_min draws the same labels from the same key
+            j = judge_find_min(case, kind)
+        else:
+            j = judge_explicit(case, kind)
+    finally:
+        _call = saved
+    j.tag("wiring:" + kind)
+    return j
+
+
+@st.composite
+def wiring_case(draw):
+    kind = draw(st.sampled_from(["ssi", "plscf"]))
+    mode = draw(st.sampled_from(["int", "list", "find_min"] if kind == "ssi" else ["int", "list"]))
+    c = draw(req_case(kind == "ssi", mode))
+    c["kind"] = kind
+    c["rtol"] = draw(st.sampled_from([0.05, 0.01, 0.002, 0.1, 0.03, 0.2]))
+    if mode != "find_min":
+        c["table"]["pert"] = draw(st.sampled_from([0.0, 0.1, 0.3, 0.6, 1.5])) * c["rtol"]
+    return c
+
+
 def _mk(kind, mode):
     if mode == "find_min":
         return lambda case: judge_find_min(case, kind)
@@ -352,6 +411,8 @@ SUBS = [
     Sub("plscf_list", _mk("plscf", "list"), req_case(False, "list"), quick=800, thorough=15000, rule="plscf.pLSCF_mpe, one order per mode"),
     Sub("ssi_find_min", _mk("ssi", "find_min"), req_case(True, "find_min"), quick=800, thorough=15000, rule="ssi.SSI_mpe(order='find_min'): lowest qualifying column, all parameters from it"),
     Sub("plscf_find_min", _mk("plscf", "find_min"), req_case(False, "find_min"), quick=800, thorough=15000, rule="plscf.pLSCF_mpe(order='find_min'): lowest qualifying column, all parameters from it"),
+    Sub("class_wiring", judge_wiring, wiring_case(), quick=800, thorough=15000,
+        rule="SSIcov.mpe / pLSCF.mpe on synthetic result tables installed in the algorithm: same model; checks what the class hands to the extraction function and stores afterwards"),
     Sub("classes", judge_class, class_case(), quick=120, thorough=2000, rule="SSIcov/SSIdat/pLSCF.mpe through SingleSetup on noisy data: same model applied to result.*_poles"),
 ]
 
